@@ -17,6 +17,9 @@ WFit == /\ Is("WFit") /\ l' = l + 1
 \* group reported by split(); scale multiplies; merging keeps the sum; a depth-1 tree is a stump
 WAlg == /\ Is("WAlg") /\ l' = l + 1
         /\ Ev.addsOK /\ Ev.missingZeroOK /\ Ev.sampleOnlyOK /\ Ev.splitOK /\ Ev.scaleOK /\ Ev.mergeOK /\ Ev.tree1OK
+        \* added / group clauses for sample lists other than 0..n-1 (strict subsets, any order, repetitions): only listed samples with
+        \* a given feature value get a group
+        /\ Ev.addsListOK /\ Ev.splitListOK
 Next == WFit \/ WAlg
 Init == l = 1
 Spec == Init /\ [][Next]_l
